@@ -112,6 +112,7 @@ static int build_fields(UMessage * m, uint32 nf, char ** p, const char ** why)
    {
       uint32 nameLen, tc, n; uint8 * name = unhex(tok(p), &nameLen); c_status_t r = CB_NO_ERROR;
       tc = (uint32) strtoul(tok(p), NULL, 16); n = (uint32) strtoul(tok(p), NULL, 10);
+      if (tc == B_POINTER_TYPE) {for (j=0; j<n; j++) (void) tok(p); free(name); continue;}      /* a non-flattenable field of the content: the micro codec has no such kind */
       if (tc == B_MESSAGE_TYPE)
       {
          if ((n == 0)&&(UMAddMessages(m, (const char *) name, NULL, 0) != CB_NO_ERROR)) {*why = "UMAddMessages"; return 1;}     /* a Message field with zero items */
